@@ -30,6 +30,35 @@ func c13(c *Ctx) {
 	sMainSendsBuffered(c, "R7/S-MAINSEND")
 	sLockDiscipline(c, "R8/S-LOCK", "Raft", "followerReplication")
 	sState(c, "R9/S-STATE")
+	c13R10(c, "R10")
+}
+
+// c13R10: the heartbeat routine exists so that a follower whose append is
+// slow (blocked on its disk) still hears from the leader and still answers it:
+// every wake-up of the routine sends its own AppendEntries, unconditionally.
+// A heartbeat that is skipped because "replicate() already has a request on
+// the wire" starves the contact time for as long as that request takes, and a
+// healthy leader deposes itself (round-8 seed C13-P).
+func c13R10(c *Ctx, rule string) {
+	fn := c.Fn(rule, "(*Raft).heartbeat")
+	if fn == nil {
+		return
+	}
+	sel := loopSelect(c, fn)
+	if sel == nil {
+		c.Bad(rule, "heartbeat:wait", c.P.Pos(fn.Pos()), "a blocking select that waits for the next heartbeat interval", "not found")
+		return
+	}
+	isWait := func(in ssa.Instruction) bool { return in == ssa.Instruction(sel) }
+	r := c.Run(&engine.Automaton{Fn: fn, Tracks: []engine.Track{
+		engine.Event("wait", isWait, "rpc"),
+		engine.Event("rpc", c.P.IsCallTo(engine.Is("iface:Transport.AppendEntries"))),
+	}})
+	c.RequireAt(r, rule, "heartbeat:every-wake-up-sends", sel, "between two waits the routine has sent its AppendEntries (no path around the RPC back to the wait)", func(v engine.View) bool {
+		return v.Unseen("wait") || v.Seen("rpc")
+	})
+	n := len(c.P.CallsIn(fn, engine.Is("iface:Transport.AppendEntries")))
+	c.Check(rule, "heartbeat:one-rpc-site", c.P.Pos(fn.Pos()), "the routine has its AppendEntries call", n >= 1, fmt.Sprintf("%d call(s)", n), n)
 }
 
 // c13R6: the follower side of "a healthy cluster keeps one leader and one
